@@ -29,6 +29,7 @@ def err_key(e, I):
 
 
 def run(ctx):
+    from .. import custom as custom_mod
     runner.prove(ctx, MODULE, THEOREMS, FILES)
     try:
         directed_positions(ctx)
@@ -48,7 +49,7 @@ def run(ctx):
     for s, w in batch:
         try:
             ws = rebuild.wrap_random(s, ctx.rnd, prob=ctx.rnd.choice([0.2, 0.5, 1.0]))
-            nwrapped = sum(1 for x in rebuild.subschemas(ws) if type(x).__name__ == "FwdSchema")
+            nwrapped = sum(1 for x in rebuild.subschemas(ws) if isinstance(x, custom_mod.FWD_CLASSES))
         except Exception as e:  # noqa: BLE001
             # wrapping is `CustomSchema()(inner)` + `props.update(...)` on the tree under test: it never fails on the unchanged tree
             ctx.breakage("correspondence", "wrapping the sub-schemas of a schema in a forwarding custom type raised "
@@ -176,12 +177,13 @@ def directed_positions(ctx):
     ]
     for leaf, lvals in leaves:
         for pname, mk, mv in positions:
+          for wi, wrapper in enumerate(custom.WRAPPERS):
             try:
-                s, ws = mk(leaf), mk(custom.wrap(leaf))
+                s, ws = mk(leaf), mk(wrapper(leaf))
             except Exception:  # noqa: BLE001
                 ctx.count("directed_positions_not_declarable")
                 continue
-            info = dict(plain=repr(s), position=pname, wrapped_nodes=1)
+            info = dict(plain=repr(s), position=pname, wrapped_nodes=1, custom_class=type(wrapper(leaf)).__name__)
             if s.__accept__(R, indent=0) != ws.__accept__(R, indent=0):
                 ctx.violation("printed form differs when sub-schemas are wrapped in a forwarding custom type", **info)
             for lv in lvals:
